@@ -80,3 +80,8 @@ package validators
 //@   loop 1
 //@     invariant len(validatorErrors) == $i - (session.$okcount - old(session.$okcount))
 //@     invariant session.$okcount >= old(session.$okcount)
+
+// The group rule asks the provider about exactly the configured groups.
+//@ func NewEmailGroupValidator(provider providers.Provider, allowedGroups []string) EmailGroupValidator
+//@   modifies nothing
+//@   ensures [C11] keeps_the_configured_groups_and_provider: result.Provider == provider && arrof(result.AllowedGroups) == arrof(allowedGroups) && len(result.AllowedGroups) == len(allowedGroups)
